@@ -39,8 +39,24 @@ func (f *Frame) heap(st *State, name string) string {
 		if lf := f.ctx.baseFrames[st.base]; lf != nil {
 			f.frameFact1(name, f.heap(lf.before, name), n, lf.before.alloc, lf.guard, lf.modObjs)
 		}
+		f.heapWF(name, n, st.alloc)
 	}
 	return n
+}
+
+// heapWF: every pointer stored anywhere in a heap refers to an object that has
+// already been allocated (Go has no dangling "future" pointers). Stated for
+// fresh heap versions (initial and havocked); versions built by store inherit it.
+func (f *Frame) heapWF(name, h, alloc string) {
+	if alloc == "" {
+		return
+	}
+	switch name {
+	case "H_ptr":
+		f.ctx.Fact(fmt.Sprintf("(forall ((p Ptr)) (! (or (= (select %s p) nil) (< (pobj (select %s p)) %s)) :pattern ((select %s p))))", h, h, alloc, h))
+	case "H_slice":
+		f.ctx.Fact(fmt.Sprintf("(forall ((p Ptr)) (! (or (= (sbase (select %s p)) nil) (< (pobj (sbase (select %s p))) %s)) :pattern ((select %s p))))", h, h, alloc, h))
+	}
 }
 
 // Frame is one activation of a function under symbolic execution.
@@ -79,6 +95,13 @@ type Frame struct {
 	usedContracts map[string]bool
 	assertsHit    map[string]bool
 	bridged       map[string]bool
+	// monitor model (lock.go)
+	lockSnaps    map[string]*State
+	lastLockSnap *State
+	lastLockReach string
+	csCount   map[string]int
+	noopFuncs map[string]bool
+	curBlock  *ssa.BasicBlock
 }
 
 type closureVal struct {
@@ -324,6 +347,13 @@ func (e *Engine) writesOf(c *Ctx, fn *ssa.Function) *WriteSet {
 		e.writeMemo[name] = w
 		return w
 	}
+	if (fn.Name() == "MarshalVT" || fn.Name() == "SizeVT" || fn.Name() == "EqualVT" || fn.Name() == "CloneVT") && fn.Pos().IsValid() && strings.HasSuffix(e.Prog.Fset.Position(fn.Pos()).Filename, ".pb.go") {
+		// generated marshalling: allocates and fills a fresh buffer / message
+		e.note("generated MarshalVT/SizeVT/EqualVT/CloneVT in *.pb.go are assumed to write only memory they allocate")
+		w := &WriteSet{Heaps: map[string]bool{}}
+		e.writeMemo[name] = w
+		return w
+	}
 	if fn.Name() == "String" && fn.Pos().IsValid() && strings.HasSuffix(e.Prog.Fset.Position(fn.Pos()).Filename, ".pb.go") {
 		// generated enum/message String(): formatting only
 		e.note("generated String() methods in *.pb.go are assumed to have no visible side effects")
@@ -385,6 +415,17 @@ func (e *Engine) ifaceContract(cc *ssa.CallCommon) *FuncContract {
 		if sig, ok := m.Type().(*types.Signature); ok && sig.Recv() != nil {
 			if n, ok := sig.Recv().Type().(*types.Named); ok && n.Obj().Pkg() != nil {
 				names = append(names, n.Obj().Pkg().Path()+"."+n.Obj().Name()+"."+m.Name())
+			}
+		}
+	}
+	// explicit interface-method contracts first
+	for _, n := range names {
+		if ic, ok := e.CS.Ifaces[n]; ok {
+			return ic
+		}
+		if strings.HasPrefix(n, modPrefix) {
+			if ic, ok := e.CS.Ifaces[strings.TrimPrefix(n, modPrefix)]; ok {
+				return ic
 			}
 		}
 	}
@@ -875,6 +916,7 @@ func (f *Frame) execBlock(b *ssa.BasicBlock, entryReach string, entrySt *State) 
 		}
 	}
 	f.reach[b] = reach
+	f.curBlock = b
 	for _, in := range b.Instrs {
 		if _, ok := in.(*ssa.Phi); ok {
 			continue
@@ -915,6 +957,12 @@ func (f *Frame) havocState(st *State, w *WriteSet, why string) *State {
 	if w.All {
 		out.base = f.ctx.newBase()
 		out.heaps = map[string]string{}
+		// which locks this goroutine holds is not changed by callees
+		for k, v := range st.heaps {
+			if strings.HasPrefix(k, "G_held|") {
+				out.heaps[k] = v
+			}
+		}
 	} else {
 		var hs []string
 		for h := range w.Heaps {
@@ -928,6 +976,11 @@ func (f *Frame) havocState(st *State, w *WriteSet, why string) *State {
 	na := f.ctx.Fresh("alloc", "Int")
 	f.ctx.Fact(fmt.Sprintf("(>= %s %s)", na, st.alloc))
 	out.alloc = na
+	for _, hn := range []string{"H_ptr", "H_slice"} {
+		if t, ok := out.heaps[hn]; ok && t != st.heaps[hn] {
+			f.heapWF(hn, t, na)
+		}
+	}
 	return out
 }
 
